@@ -280,8 +280,7 @@ func (s *Search) one() (o Object, err error) {
 	}
 
 	// prevent collecting all results and using only one
-	s.limit = 1
-	if sr, err = s.collect(); err != nil {
+	if sr, err = s.collectN(1); err != nil {
 		return
 	}
 	o = sr[0]
@@ -289,6 +288,12 @@ func (s *Search) one() (o Object, err error) {
 }
 
 func (s *Search) collect() (out []Object, err error) {
+	return s.collectN(s.limit)
+}
+
+// collectN collects at most limit results, the limit configured
+// for the search is left untouched so that it can be collected again
+func (s *Search) collectN(limit uint64) (out []Object, err error) {
 	var it *iterator
 	var o Object
 
@@ -306,9 +311,11 @@ func (s *Search) collect() (out []Object, err error) {
 	}
 
 	out = make([]Object, 0, it.len())
-	for o, err = it.next(); err == nil && err != ErrEOI && s.limit > 0; o, err = it.next() {
+	for ; limit > 0; limit-- {
+		if o, err = it.next(); err != nil {
+			break
+		}
 		out = append(out, o)
-		s.limit--
 	}
 
 	// normal end of iterator
